@@ -10,6 +10,7 @@ import (
 	"fmt"
 	"io"
 	"net"
+	"sync"
 	"time"
 
 	"github.com/TheManticoreProject/Manticore/network/netbios/nbtns"
@@ -225,4 +226,88 @@ func nbStreamSizes() {
 		nontrivial(fmt.Sprintf("stream-size|%d", size))
 	}
 	count("stream_request_sizes_tried", len(sizes))
+}
+
+// nbRedirects: a redirect table filled once, then read by several goroutines that each build the
+// redirect response for their own request. Each response names its own question, carries the
+// address and port of its scope's entry, and keeps them; the address the caller handed to
+// AddRedirect (a window of a larger buffer included) is not written to.
+func nbRedirects() {
+	const G = 8
+	rm := nbtns.NewRedirectManager()
+	type ent struct {
+		scope string
+		ip    net.IP
+		port  uint16
+	}
+	callerBuf := bytes.Repeat([]byte{0xEE}, 64) // the caller's own memory around one of the addresses
+	copy(callerBuf[8:], []byte{10, 20, 30, 40})
+	ents := []ent{
+		{"corp.example", net.IP{10, 1, 2, 3}, 137},
+		{"lab.example", net.ParseIP("10.9.8.7"), 0x1234},
+		{"dmz.example", net.ParseIP("10.9.8.6").To4(), 65535},
+		{"v6.example", net.ParseIP("2001:db8::5"), 1},
+		{"window.example", net.IP(callerBuf[8:12]), 0xABCD},
+		{"", net.IP{192, 168, 0, 1}, 138},
+	}
+	for _, e := range ents {
+		rm.AddRedirect(e.scope, e.ip, e.port)
+	}
+	type kept struct {
+		rdata, want []byte
+		scope       string
+	}
+	var mu sync.Mutex
+	var all []kept
+	var wg sync.WaitGroup
+	start := make(chan struct{})
+	for g := 0; g < G; g++ {
+		wg.Add(1)
+		go func(g int) {
+			defer wg.Done()
+			<-start
+			for i := 0; i < pick(200, 2000); i++ {
+				e := ents[(g+i)%len(ents)]
+				qn := &nbtns.NetBIOSName{Name: fmt.Sprintf("RD%02dX%04d", g, i), ScopeID: e.scope}
+				req := &nbtns.NBTNSPacket{Header: nbtns.NBTNSHeader{TransactionID: uint16(g<<12 | i), Flags: nbtns.OpNameQuery | 0x0110, Questions: 1},
+					Questions: []nbtns.NBTNSQuestion{{Name: qn, Type: 0x20, Class: 1}}}
+				resp := &nbtns.NBTNSPacket{Header: nbtns.NBTNSHeader{TransactionID: req.Header.TransactionID}}
+				var handled bool
+				p, pv, _ := mon.Guard(func() { handled = rm.HandleRedirect(req, resp) })
+				evals.Add(1)
+				cs := map[string]any{"scope": e.scope, "redirect_to": e.ip.String(), "port": e.port, "goroutines": G}
+				want := append(append([]byte{}, e.ip...), byte(e.port>>8), byte(e.port))
+				switch {
+				case p:
+					viol("nbns.RedirectManager.HandleRedirect:panic", fmt.Sprint(pv), cs)
+				case !handled || len(resp.Additional) != 1:
+					viol("nbns.RedirectManager.HandleRedirect:not-redirected", fmt.Sprintf("a query in scope %q, which has a redirect entry, was not redirected (handled=%v, %d additional records)", e.scope, handled, len(resp.Additional)), cs)
+				case resp.Additional[0].Name == nil || resp.Additional[0].Name.Name != qn.Name || !bytes.Equal(resp.Additional[0].RData, want):
+					viol("nbns.RedirectManager.HandleRedirect:record", fmt.Sprintf("redirect record for %s in scope %q carries %x, the entry of that scope is %x", qn.Name, e.scope, resp.Additional[0].RData, want), cs)
+				default:
+					if i%16 == 0 {
+						mu.Lock()
+						all = append(all, kept{resp.Additional[0].RData, want, e.scope})
+						mu.Unlock()
+					}
+				}
+			}
+		}(g)
+	}
+	close(start)
+	wg.Wait()
+	for _, k := range all {
+		if !bytes.Equal(k.rdata, k.want) {
+			viol("nbns.RedirectManager.HandleRedirect:held-record-changed", fmt.Sprintf("a redirect record returned earlier for scope %q now reads %x (was %x)", k.scope, k.rdata, k.want), map[string]any{"scope": k.scope})
+			break
+		}
+	}
+	for i, b := range callerBuf {
+		if (i < 8 || i >= 12) && b != 0xEE {
+			viol("nbns.RedirectManager.HandleRedirect:caller-memory-written", fmt.Sprintf("the address given to AddRedirect was a 4-octet window of the caller's buffer; octet %d next to it was overwritten with %#02x", i-8, b), map[string]any{"buffer": hex.EncodeToString(callerBuf)})
+			break
+		}
+	}
+	nontrivial("redirects")
+	count("redirect_responses_built", G*pick(200, 2000))
 }
